@@ -1,4 +1,6 @@
 """C11 - macro expansion always terminates within its pass budget."""
+import sys
+
 from .. import harness
 from . import common, macrocommon
 
@@ -59,7 +61,7 @@ def plan(tier, seed):
     return specs
 
 
-def work(spec):
+def _work(spec):
     part = harness.new_partial()
     name, src, need, maxb = families(None)[spec["fam"]]
     files = {"main": src}
@@ -122,5 +124,21 @@ def work(spec):
     return part
 
 
+
+
+def work(spec):
+    part = _work(spec)
+    for v in part["violations"]:
+        if isinstance(v.get("case"), dict):
+            v["case"]["spec"] = spec
+    return part
+
+
 def replay(case):
-    return []
+    """re-run the chunk the stored case came from and report the violations with the same signature family"""
+    if "spec" not in case:
+        return []
+    from .. import harness as _h
+    if hasattr(sys.modules[__name__], "plan") and case["spec"].get("kind") in ("seq", "conc"):
+        plan("quick", case["spec"].get("seed", 1))   # C18: baselines are computed in plan()
+    return _work(case["spec"])["violations"]
